@@ -20,6 +20,7 @@ type c15Case struct {
 	StaleSets   int   `json:"stale_sets"`
 	StalePlcy   int   `json:"stale_plcy"`    // stale, unreferenced GLX-PLCY chains
 	StalePodRef bool  `json:"stale_pod_ref"` // a stale GLX-POD chain (pod long gone) still jumping to a stale GLX-PLCY chain
+	NoHooks     bool  `json:"no_hooks,omitempty"` // the hook chains GLX-INGRESS / GLX-EGRESS exist beforehand but nothing jumps to them (a crash between -N and -I)
 	Events      bool  `json:"events"`        // deliver the A->B difference through the event handlers before the full sync
 }
 
@@ -93,6 +94,7 @@ func genC15() *rapid.Generator[c15Case] {
 		c.StalePlcy = rapid.IntRange(0, 2).Draw(t, "stalePlcy")
 		c.StalePodRef = rapid.IntRange(0, 5).Draw(t, "stalePodRef") == 0
 		c.Events = rapid.Bool().Draw(t, "events")
+		c.NoHooks = !c.StalePodRef && rapid.IntRange(0, 3).Draw(t, "noHooks") == 0
 		return c
 	})
 }
@@ -120,6 +122,10 @@ func seedGarbage(ipt *nf.IPTables, sets *nf.IPSet, c *c15Case) {
 		sets.SeedSet(fmt.Sprintf("GLX-ip-STALEP%010d", i), ipset.HashIP, "10.20.9.3")
 		ipt.Seed("filter", fmt.Sprintf("GLX-PLCY-STALE%011d", i),
 			fmt.Sprintf("-m comment --comment old_ns -m set --match-set GLX-ip-STALEP%010d dst -j ACCEPT", i))
+	}
+	if c.NoHooks {
+		ipt.Seed("filter", "GLX-INGRESS")
+		ipt.Seed("filter", "GLX-EGRESS")
 	}
 	if c.StalePodRef {
 		sets.SeedSet("GLX-ip-STALEREF00000", ipset.HashIP, "10.20.9.4")
@@ -305,6 +311,29 @@ func checkC15(c c15Case, r *vcore.Rec) *vcore.Failure {
 	ref.PM.Run()
 	want := ref.OwnState()
 	r.Logf("after sync B:\n%s", got)
+	// the jumps from the built-in chains into galaxy's hook chains: whatever a sync from empty tables installs must be there
+	hookJumps := func(sim *Sim) map[string]bool {
+		out := map[string]bool{}
+		tb := sim.IPT.Snapshot("filter")
+		for _, bn := range []string{"INPUT", "OUTPUT", "FORWARD"} {
+			if ch := tb.Chains[bn]; ch != nil {
+				for _, rl := range ch.Rules {
+					if tg := rl.Target(); tg == "GLX-INGRESS" || tg == "GLX-EGRESS" {
+						out[bn+" -> "+tg] = true
+					}
+				}
+			}
+		}
+		return out
+	}
+	gotJumps := hookJumps(s)
+	for j := range hookJumps(ref) {
+		if !gotJumps[j] {
+			return vcore.Failf("c15:convergence:hook_missing", "after the full sync of B the jump %s is missing (a sync from empty tables installs it): "+
+				"no traffic reaches galaxy's pod chains", j)
+		}
+	}
+	r.ClassIf(c.NoHooks, "hook_chains_without_jumps")
 	if got != want {
 		// classification of two recorded findings (known_findings.txt): chains/hooks of pods that no longer exist are never
 		// removed by a full sync (K2), and the hook rule of a pod's previous address is never removed (K3)
